@@ -108,11 +108,12 @@ type phaseSnap struct {
 
 // stepEvent is a fine-grained hook event (import.new, name, pointer.*, strip.one, reload) with its arguments.
 type stepEvent struct {
-	Ev     string     `json:"ev"`
-	Target []string   `json:"target"` // import.*: the remote target <<docId, tok...>> ; pointer.* / strip.one: the $ref involved
-	Name   string     `json:"name"`   // import.* / name: the definition name chosen
-	Keys   [][]string `json:"keys"`   // holder keys (paths in the root)
-	At     int        `json:"at"`     // number of phase snapshots taken before this event
+	Ev      string     `json:"ev"`
+	Target  []string   `json:"target"`  // import.*: the remote target <<docId, tok...>> ; pointer.* / strip.one: the $ref involved
+	Name    string     `json:"name"`    // import.* / name: the definition name chosen
+	Keys    [][]string `json:"keys"`    // holder keys (paths in the root)
+	Parents [][]string `json:"parents"` // strip.one: the parents in the order the code processes them
+	At      int        `json:"at"`      // number of phase snapshots taken before this event
 }
 
 type fullAnswers struct {
@@ -310,7 +311,7 @@ func opFlatten(req *Req) (any, map[string]string, error) {
 				}
 				return
 			}
-			se := stepEvent{Ev: ev, Target: []string{}, Keys: [][]string{}, At: len(rec.Phases)}
+			se := stepEvent{Ev: ev, Target: []string{}, Keys: [][]string{}, Parents: [][]string{}, At: len(rec.Phases)}
 			switch ev {
 			case "import.new", "import.known":
 				se.Target = pj.ParseRef(hargs[0], "root")
@@ -327,6 +328,9 @@ func opFlatten(req *Req) (any, map[string]string, error) {
 			case "strip.one":
 				se.Keys = [][]string{parseKey(pj, hargs[0])}
 				se.Target = pj.ParseRef(hargs[1], "root")
+				for _, p := range strings.Split(hargs[2], "\x00") {
+					se.Parents = append(se.Parents, parseKey(pj, p))
+				}
 			case "reload":
 			default:
 				return
